@@ -3,7 +3,7 @@ Driver/C13.lean — line-protocol driver for C13 histories.
 in : {"case": n, "tables": [[name, Table]], "events": [Ev]}
 out: {"case": n, "events": [ per event:
         {"kind": "frame", "model": table|null, "spec": table|null, "scope": [violated hypothesis names], "chain": [cte names]}
-      | {"kind": "register", "keys": [registry keys], "stale": bool}
+      | {"kind": "register", "keys": [registry keys], "stale": bool, "cols": [columns the catalog holds], "dfCols": [the frame's columns]}
       | {"kind": "skip"} ]}
 The model side evaluates `Views.step` / `execFrame` (the definitions the C13 theorems are about); the
 specification side evaluates `Views.specStep`.  A frame inherits the violated hypotheses of the frames /
@@ -60,8 +60,11 @@ def handleEv (db : Db) (d : DSt) (e : Ev) : DSt :=
       let key := regKey drvNorm name
       let t := (d.taint[i]?).getD []
       let stale := match assoc σ'.reg key with | some en => en.stale | none => false
+      let cols := match assoc σ'.reg key with | some en => en.schemaCols | none => []
+      let dfCols := match assoc σ'.reg key with | some en => en.cols | none => []
       { σ := σ', s := s', taint := d.taint, viewTaint := setAssoc d.viewTaint key t,
-        out := d.out ++ [Json.mkObj [("kind", "register"), ("keys", toJson (names σ'.reg)), ("stale", toJson stale)]] }
+        out := d.out ++ [Json.mkObj [("kind", "register"), ("keys", toJson (names σ'.reg)), ("stale", toJson stale),
+                                     ("cols", toJson cols), ("dfCols", toJson dfCols)]] }
   | .table name =>
     let t := (assoc d.viewTaint (tableKey drvNorm name)).getD []
     frameOut db d σ' s' t
